@@ -67,6 +67,8 @@ type Spec struct {
 	// that several rules can have byte-identical action text; needs yaccgo's rule numbers to
 	// be the file order (checked by the driver on the native dump)
 	SameActions bool
+	// PrecTag: an optional <tag> written on precedence line i
+	PrecTag map[int]string
 }
 
 // precLineNumber: the explicit number of a named token that is declared by a precedence
@@ -251,7 +253,7 @@ func (s *Spec) Render(o RenderOpts) string {
 	}
 	// token declarations
 	for _, t := range s.Toks {
-		if t.Decl == "prec" || t.Decl == "rule" {
+		if t.Decl == "prec" || t.Decl == "rule" || t.Decl == "extra" {
 			continue
 		}
 		sb.WriteString("%token ")
@@ -264,8 +266,11 @@ func (s *Spec) Render(o RenderOpts) string {
 		}
 		sb.WriteString("\n")
 	}
-	for _, p := range s.Prec {
+	for pi, p := range s.Prec {
 		sb.WriteString("%" + p.Assoc)
+		if tag := s.PrecTag[pi]; tag != "" {
+			sb.WriteString(" <" + tag + ">")
+		}
 		for _, sym := range p.Syms {
 			sb.WriteString(" " + sym)
 			if n := s.precLineNumber(sym); n != 0 {
@@ -921,6 +926,15 @@ func Fixed() []*Spec {
 			"S: 'v' 'i' ';' | 'v' 'i' '=' X ';' | X ';' | 'f' '(' X ')' S | 'f' '(' X ')' S 'e' S | 'w' '(' X ')' S | 'r' X ';' | 'r' ';' | 'p' '(' AL ')' ';' | '{' SL '}' | ';'",
 			"AL: | X | AL ',' X",
 			"X: X '+' X | X '-' X | X '*' X | X '/' X | X '<' X | X '&' X | X '^' X | 'i' '=' X | '!' X | '-' X %prec '!' | '(' X ')' | 'i' '(' AL ')' | 'i' '[' X ']' | 'i' | 'n'")})
+	// a string alias after a token number followed by another token on the same line, and a value
+	// tag given on a precedence line to a token that %token declared without one
+	add(&Spec{Name: "alias_prectag", Tags: []string{"conflict-resolved"},
+		ExtraDecl: []string{`%token <val> NUM 460 "number" ID`, "%token PLUS"},
+		Toks:      []Tok{{Name: "NUM", Num: 460, Tag: "val", Decl: "extra"}, {Name: "ID", Tag: "val", Decl: "extra"}, {Name: "PLUS", Tag: "alt", Decl: "prec"}},
+		Prec:      []PrecLine{{"left", []string{"PLUS"}}},
+		PrecTag:   map[int]string{0: "alt"},
+		Rules:     rules("E: E PLUS E | NUM | ID"),
+		NTTag:     allVal("E")})
 	// names that differ only in case; automatic token numbers
 	add(&Spec{Name: "case_names", Tags: []string{"lalr1"},
 		Toks:  []Tok{named("NUM", 0), named("List", 0), lit(',')},
@@ -1214,7 +1228,7 @@ func (s *Spec) Pieces() (pieces, seps []string) {
 		}
 	}
 	for _, t := range s.Toks {
-		if t.Decl == "prec" || t.Decl == "rule" {
+		if t.Decl == "prec" || t.Decl == "rule" || t.Decl == "extra" {
 			continue
 		}
 		add("%token", " ")
@@ -1230,8 +1244,13 @@ func (s *Spec) Pieces() (pieces, seps []string) {
 			add(t.Ref(), "\n")
 		}
 	}
-	for _, p := range s.Prec {
+	for pi, p := range s.Prec {
 		add("%"+p.Assoc, " ")
+		if tag := s.PrecTag[pi]; tag != "" {
+			add("<", "")
+			add(tag, "")
+			add(">", " ")
+		}
 		for i, sym := range p.Syms {
 			sep := " "
 			if i+1 >= len(p.Syms) {
